@@ -609,6 +609,165 @@ Theorem ci_eq_false c d : ci_eq false c d <-> c = d.
 Proof. unfold ci_eq. split; [intros [H|[H _]]; [exact H|discriminate]|auto]. Qed.
 
 (* ------------------------------------------------------------------------------------------ *)
+(** * sre-expand-reps: the flat expansion of a repetition has the language of the repetition *)
+
+Lemma items_app (P : lang) l1 : forall l2 p s n,
+  items_lang P (l1 ++ l2) p s n <->
+  exists s1 s2, s = s1 ++ s2 /\ items_lang P l1 p s1 (firstc s2 n) /\ items_lang P l2 (lastc p s1) s2 n.
+Proof.
+  induction l1 as [|it l1 IH]; intros l2 p s n; cbn [app items_lang].
+  - split.
+    + intros H. exists [], s. auto.
+    + intros (s1 & s2 & -> & -> & H). exact H.
+  - split.
+    + intros (s1 & s2 & -> & H1 & H2). apply IH in H2. destruct H2 as (t1 & t2 & -> & H2 & H3).
+      exists (s1 ++ t1), t2. rewrite app_assoc. split; [reflexivity|]. split.
+      * exists s1, t1. rewrite <- firstc_app. auto.
+      * rewrite lastc_app. exact H3.
+    + intros (s1 & s2 & -> & (t1 & t2 & -> & H1 & H2) & H3).
+      exists t1, (t2 ++ s2). rewrite app_assoc. split; [reflexivity|]. split.
+      * rewrite firstc_app. exact H1.
+      * apply IH. exists t2, s2. rewrite <- lastc_app. auto.
+Qed.
+
+Lemma items_copies (P : lang) l : Forall (fun it => exists b, it = RCopy b) l ->
+  forall p s n, items_lang P l p s n <-> LPow P (length l) p s n.
+Proof.
+  induction 1 as [|it l (b & ->) _ IH]; intros p s n; cbn [items_lang length LPow item_lang]; [reflexivity|].
+  split; intros (s1 & s2 & E & H1 & H2); exists s1, s2; (split; [exact E|split; [exact H1|apply IH; exact H2]]).
+Qed.
+
+Lemma items_opts (P : lang) l : Forall (fun it => exists b, it = ROptc b) l ->
+  forall p s n, items_lang P l p s n <-> exists i, (i <= length l)%nat /\ LPow P i p s n.
+Proof.
+  induction 1 as [|it l (b & ->) _ IH]; intros p s n; cbn [items_lang length item_lang].
+  - split.
+    + intros ->. exists O. split; [lia|reflexivity].
+    + intros (i & Hi & H). assert (i = O) by lia. subst. exact H.
+  - split.
+    + intros (s1 & s2 & -> & [->|H1] & H2).
+      * apply IH in H2. destruct H2 as (i & Hi & H2). exists i. split; [lia|exact H2].
+      * apply IH in H2. destruct H2 as (i & Hi & H2). exists (S i). split; [lia|].
+        exists s1, s2. auto.
+    + intros (i & Hi & H). destruct (Nat.eq_dec i (S (length l))) as [->|Hne].
+      * destruct H as (s1 & s2 & -> & H1 & H2). exists s1, s2. split; [reflexivity|].
+        split; [right; exact H1|]. apply IH. exists (length l). split; [lia|exact H2].
+      * exists [], s. split; [reflexivity|]. split; [left; reflexivity|].
+        apply IH. exists i. split; [lia|exact H].
+Qed.
+
+Lemma Forall_repeat {A} (Q : A -> Prop) x k : Q x -> Forall Q (repeat x k).
+Proof. intros H. induction k; cbn [repeat]; constructor; auto. Qed.
+
+Theorem expand_reps_unbounded (P : lang) from p s n :
+  items_lang P (expand_reps from None) p s n <-> exists k, (from <= k)%nat /\ LPow P k p s n.
+Proof.
+  unfold expand_reps. rewrite items_app. split.
+  - intros (s1 & s2 & -> & H1 & H2).
+    apply items_copies in H1; [|apply Forall_repeat; eauto]. rewrite repeat_length in H1.
+    cbn [items_lang item_lang] in H2. destruct H2 as (t1 & t2 & -> & H2 & ->).
+    rewrite app_nil_r in *. cbn [firstc] in H2. apply LStar_LPow in H2. destruct H2 as (j & H2).
+    exists (from + j)%nat. split; [lia|]. apply LPow_add. exists s1, t1. auto.
+  - intros (k & Hk & H). replace k with (from + (k - from))%nat in H by lia. apply LPow_add in H.
+    destruct H as (s1 & s2 & -> & H1 & H2). exists s1, s2. split; [reflexivity|]. split.
+    + apply items_copies; [apply Forall_repeat; eauto|]. rewrite repeat_length. exact H1.
+    + cbn [items_lang item_lang]. exists s2, []. rewrite app_nil_r. split; [reflexivity|].
+      split; [|reflexivity]. cbn [firstc]. apply LStar_LPow. eauto.
+Qed.
+
+Theorem expand_reps_bounded (P : lang) from t p s n : (from <= t)%nat ->
+  (items_lang P (expand_reps from (Some t)) p s n <-> exists k, (from <= k /\ k <= t)%nat /\ LPow P k p s n).
+Proof.
+  intros Hle. unfold expand_reps. destruct (Nat.eqb_spec from t) as [<-|Hne].
+  - destruct from as [|k0].
+    + cbn [items_lang]. split.
+      * intros ->. exists O. split; [lia|reflexivity].
+      * intros (k & Hk & H). assert (k = O) by lia. subst. exact H.
+    + rewrite items_copies.
+      * rewrite app_length, repeat_length. cbn [length]. replace (k0 + 1)%nat with (S k0) by lia. split.
+        -- intros H. exists (S k0). split; [lia|exact H].
+        -- intros (k & Hk & H). assert (k = S k0) by lia. subst. exact H.
+      * apply Forall_app. split; [apply Forall_repeat; eauto|repeat constructor; eauto].
+  - rewrite items_app. split.
+    + intros (s1 & s2 & -> & H1 & H2).
+      apply items_copies in H1; [|apply Forall_repeat; eauto]. rewrite repeat_length in H1.
+      apply items_opts in H2; [|apply Forall_app; split; [apply Forall_repeat; eauto|repeat constructor; eauto]].
+      rewrite app_length, repeat_length in H2. cbn [length] in H2. destruct H2 as (i & Hi & H2).
+      exists (from + i)%nat. split; [lia|]. apply LPow_add. exists s1, s2. auto.
+    + intros (k & Hk & H). replace k with (from + (k - from))%nat in H by lia. apply LPow_add in H.
+      destruct H as (s1 & s2 & -> & H1 & H2). exists s1, s2. split; [reflexivity|]. split.
+      * apply items_copies; [apply Forall_repeat; eauto|]. rewrite repeat_length. exact H1.
+      * apply items_opts; [apply Forall_app; split; [apply Forall_repeat; eauto|repeat constructor; eauto]|].
+        rewrite app_length, repeat_length. cbn [length]. exists (k - from)%nat. split; [lia|exact H2].
+Qed.
+
+(* ------------------------------------------------------------------------------------------ *)
+(** * regexp-match>=?: the merge preference *)
+
+Fixpoint wf_vec (m : list (option nat)) : Prop :=
+  match m with
+  | Some a :: Some b :: r => (a <= b)%nat /\ wf_vec r
+  | _ :: _ :: r => wf_vec r
+  | _ => True
+  end.
+
+Lemma pair_ind {A} (P : list A -> Prop) :
+  P [] -> (forall a, P [a]) -> (forall a b l, P l -> P (a :: b :: l)) -> forall l, P l.
+Proof.
+  intros H0 H1 H2. fix IH 1. intros [|a [|b l]]; [exact H0|apply H1|apply H2, IH].
+Qed.
+
+Lemma oeqb_sym a b : oeqb a b = oeqb b a.
+Proof. destruct a, b; cbn [oeqb]; try reflexivity. apply Nat.eqb_sym. Qed.
+
+Lemma oeqb_eq a b : oeqb a b = true <-> a = b.
+Proof.
+  destruct a, b; cbn [oeqb]; try (split; congruence).
+  rewrite Nat.eqb_eq. split; congruence.
+Qed.
+
+Ltac ge_cases :=
+  repeat match goal with
+         | |- context [(?a <? ?b)%nat] => destruct (Nat.ltb_spec a b)
+         | |- context [(?a =? ?b)%nat] => destruct (Nat.eqb_spec a b)
+         | H : context [(?a <? ?b)%nat] |- _ => destruct (Nat.ltb_spec a b)
+         | H : context [(?a =? ?b)%nat] |- _ => destruct (Nat.eqb_spec a b)
+         end.
+
+(** the preference is total on well-formed vectors: of two different candidates one is kept *)
+Theorem match_ge_total ng : forall m1 m2 i, wf_vec m1 -> wf_vec m2 ->
+  match_ge ng i m1 m2 = true \/ match_ge ng i m2 m1 = true.
+Proof.
+  induction m1 as [|a|s1 e1 r1 IH] using pair_ind; intros m2 i W1 W2; try (left; reflexivity).
+  destruct m2 as [|s2 [|e2 r2]]; try (left; reflexivity).
+  cbn [match_ge]. rewrite (oeqb_sym s2 s1), (oeqb_sym e2 e1).
+  destruct (oeqb s1 s2 && oeqb e1 e2) eqn:E.
+  - apply IH.
+    + destruct s1 as [?|], e1 as [?|]; cbn [wf_vec] in W1; tauto.
+    + destruct s2 as [?|], e2 as [?|]; cbn [wf_vec] in W2; tauto.
+  - assert (N : ~ (s1 = s2 /\ e1 = e2)).
+    { intros [-> ->]. rewrite andb_false_iff in E. destruct E as [E|E];
+        [assert (X : oeqb s2 s2 = true) by (apply oeqb_eq; reflexivity)
+        |assert (X : oeqb e2 e2 = true) by (apply oeqb_eq; reflexivity)]; congruence. }
+    destruct (existsb (Nat.eqb (i + 1)) ng);
+    destruct s1 as [b1|], s2 as [b2|], e1 as [x1|], e2 as [x2|]; cbn [wf_vec] in W1, W2; cbn [negb orb andb];
+      ge_cases; cbn [negb orb andb]; auto; try lia;
+      try (exfalso; apply N; split; f_equal; lia).
+Qed.
+
+(** on complete first pairs: leftmost first, then longest -- or shortest when the end slot is non-greedy *)
+Theorem match_ge_leftmost_longest ng s1 e1 s2 e2 r1 r2 :
+  (s1 <= e1)%nat -> (s2 <= e2)%nat -> (s1, e1) <> (s2, e2) ->
+  (match_ge ng 0 (Some s1 :: Some e1 :: r1) (Some s2 :: Some e2 :: r2) = true <->
+   (s1 < s2)%nat \/ (s1 = s2 /\ if existsb (Nat.eqb 1) ng then (e1 <= e2)%nat else (e2 <= e1)%nat)).
+Proof.
+  intros W1 W2 N. cbn [match_ge oeqb Nat.add].
+  destruct (Nat.eqb_spec s1 s2) as [->|Hs]; [destruct (Nat.eqb_spec e1 e2) as [->|He]; [congruence|]|];
+    cbn [andb]; destruct (existsb (Nat.eqb 1) ng); cbn [negb orb andb]; ge_cases; cbn [negb orb andb];
+    split; intros HH; try discriminate; try reflexivity; try lia.
+Qed.
+
+(* ------------------------------------------------------------------------------------------ *)
 (** * Non-vacuity: the statements above on concrete values *)
 
 (** (: bol ($ (+ (or #\a #\b))) (w/nocase ($ (repeated 1 2 #\c))) eol)  on the second line of "x\nabCc" *)
@@ -631,6 +790,15 @@ Proof. vm_compute. repeat split; reflexivity. Qed.
 Example ex_fold_spans : fold_spans (Plus (Chr (CsRange 97 98))) ex_str = Some [(2, 4)]%nat
                      /\ fold_spans (Star true (Chr (CsChar 97))) [98; 97; 97; 98] = Some [(0, 0); (1, 3); (3, 3)]%nat.
 Proof. vm_compute. split; reflexivity. Qed.
+Example ex_expand : expand_reps 2 (Some 4%nat) = [RCopy false; RCopy false; ROptc false; ROptc true]
+                 /\ expand_reps 3 (Some 3%nat) = [RCopy false; RCopy false; RCopy true]
+                 /\ expand_reps 0 (Some 0%nat) = [] /\ expand_reps 1 None = [RCopy false; RStarc].
+Proof. vm_compute. repeat split; reflexivity. Qed.
+Example ex_ge : match_ge [] 0 [Some 0; Some 3; Some 1; Some 2]%nat [Some 0; Some 2; Some 0; Some 2]%nat = true
+             /\ match_ge [1%nat] 0 [Some 0; Some 3]%nat [Some 0; Some 2]%nat = false
+             /\ match_ge [] 0 [Some 1; Some 3]%nat [Some 0; Some 0]%nat = false
+             /\ match_ge [3%nat] 0 [Some 0; Some 3; Some 1; Some 3]%nat [Some 0; Some 3; Some 1; Some 2]%nat = false.
+Proof. vm_compute. repeat split; reflexivity. Qed.
 Example ex_fold : fold 67 = fold 99 /\ cs_mem true (CsRange 97 100) 67 = true
                   /\ cs_mem false (CsRange 97 100) 67 = false.
 Proof. vm_compute. repeat split; reflexivity. Qed.
